@@ -205,7 +205,12 @@ pub fn scan_trait(code: &str) -> Result<Vec<(String, String, Vec<String>)>, Stri
 }
 
 fn raw(n: &str) -> String {
-    format!("r#{}", n)
+    // the four identifiers that cannot be raw are emitted with a trailing underscore
+    if ["self", "Self", "super", "crate"].contains(&n) {
+        format!("{}_", n)
+    } else {
+        format!("r#{}", n)
+    }
 }
 
 /// Driver module text for one generated module.
